@@ -289,6 +289,33 @@ pub fn run(ctx: &Ctx) {
         (OwnedTerm::Nil, "nil"),
         (OwnedTerm::Integer(2), "integer"),
     ];
+    // heads outside 0..255 over the whole integer range, in particular values congruent to a valid tag modulo
+    // 2^8 / 2^16 / 2^32 (what a narrowing cast would let through), in both integer representations, with the
+    // field count of the message the low byte would select
+    let mut wide: Vec<(OwnedTerm, &str)> = Vec::new();
+    for tag in [0i128, 1, 2, 3, 6, 19, 22, 35, 36, 255] {
+        for k in [8u32, 16, 31, 32, 33, 40, 48, 56, 62] {
+            for m in [1i128, 3, -1, -2] {
+                let v = tag + m * (1i128 << k);
+                if (0..=255).contains(&v) || v > i64::MAX as i128 || v < i64::MIN as i128 {
+                    continue;
+                }
+                for arity in [2usize, 3, 4] {
+                    let mut e = vec![OwnedTerm::Integer(v as i64)];
+                    e.extend((0..arity).map(|i| OwnedTerm::Integer(10 + i as i64)));
+                    wide.push((OwnedTerm::Tuple(e), "head-congruent-to-a-tag"));
+                }
+            }
+        }
+        for big in [(1i128 << 64) + tag, -((1i128 << 64) - tag), (1i128 << 63) + tag] {
+            let i = Int::from_i128(big);
+            wide.push((OwnedTerm::Tuple(vec![OwnedTerm::BigInt(erltf::BigInt::new(i.neg, i.mag.clone())), OwnedTerm::Integer(11), OwnedTerm::Integer(22)]), "big-integer-head"));
+        }
+    }
+    for v in [i64::MIN, i64::MIN + 1, i64::MIN + 255, -256, -255, 257, 511, 512, 65535, 65536, u32::MAX as i64, u32::MAX as i64 + 1, i64::MAX - 255] {
+        wide.push((OwnedTerm::Tuple(vec![OwnedTerm::Integer(v), OwnedTerm::Integer(11), OwnedTerm::Integer(22)]), "head-out-of-range"));
+    }
+    bad.extend(wide);
     for (t, what) in bad.drain(..) {
         ctx.eval(1);
         ctx.class(&format!("must-reject/{}", what));
